@@ -11,8 +11,7 @@ NOT_APPLICABLE = {
     "C04": "statistical claim (expected FDP over a distribution of datasets under exchangeability): not expressible "
            "as a single-run function contract; its structural premises are decided under C01/C02/C03 (DESIGN.md 5)",
 }
-for _p in ["C01", "C02", "C03", "C05", "C06", "C08", "C09", "C11", "C14", "C15", "C16", "C17",
-           "C18", "C20"]:
+for _p in ["C02", "C03", "C05", "C06", "C08", "C09", "C14", "C15", "C16", "C18", "C20"]:
     NOT_APPLICABLE[_p] = _PENDING
 
 CHECKS = {
@@ -88,5 +87,53 @@ CHECKS = {
                 "assumed; scaler, hyper-parameter search and persistence are bounded-only",
         "technique": "block contract with ghost statements at anchors of the real function; VCs from the current "
                      "ast; z3/cvc5; recording-estimator runs as bounded stand-in",
+    },
+    "C01": {
+        "category": "other",
+        "text": "Deductive core + bounded stand-in. Proved for all inputs (unbounded): _fdr2qvalue - for every tie "
+                "group structure the q-value of a group is the running minimum (from worst to best, capped at 1) of "
+                "the FDR taken at the END of each tie group (spec functions start/runmin, lemma start_mono by "
+                "induction, loop invariant); _update_labels - exactly the targets with q <= threshold get +1, decoys "
+                "-1, other targets 0 (array and Series entry). The straight-line composition inside tdc (sort, "
+                "cumulative counts, unique, flips, un-sort) is NOT proved: tdc enters as an interface contract and is "
+                "decided by the bounded run: the real tdc on all weak orderings x labelings x directions for n <= 5, "
+                "all dtypes and label encodings, against the defining formula.",
+        "design_ref": "DESIGN.md 4.C01",
+        "note": "floats as reals; numba decorator dropped (compiled code assumed to follow the source); numpy "
+                "argmax / slicing / mask assignment as assumed contracts; tdc's own postcondition assumed by its "
+                "callers (bounded evidence only)",
+        "technique": "sidecar contracts with ghost spec functions and lemmas; loop invariants; z3/cvc5; exhaustive "
+                     "small-domain run of the compiled function as bounded stand-in",
+    },
+    "C11": {
+        "category": "other",
+        "text": "Deductive core + bounded stand-in. Proved for all inputs (unbounded): dataset.calibrate_scores - "
+                "RuntimeError exactly when no target is accepted at eval_fdr; otherwise result[i] == (s[i]-t)/(t-d) "
+                "with t the minimum score among the accepted targets and d within the decoy scores (np.median "
+                "contract), hence 0 at t, -1 at d and strictly increasing when t > d (non-linear real VC). Bounded "
+                "(not proof): both calibrate_scores implementations on random vectors and the per-fold anchors "
+                "through brew with a recording estimator.",
+        "design_ref": "DESIGN.md 4.C11",
+        "note": "floats as reals; np.median only known to lie between min and max of its argument; "
+                "OnDiskPsmDataset.calibrate_scores and the per-fold loop of brew._predict are bounded-only",
+        "technique": "sidecar contracts, callee contract of _update_labels (C01); z3/cvc5 incl. non-linear reals; "
+                     "bounded runs",
+    },
+    "C17": {
+        "category": "other",
+        "text": "Deductive core + bounded stand-in. Proved for all sequences, site lists and parameters (unbounded), "
+                "over abstract slices of the protein: _cleavage_sites (0, match ends, len; non-decreasing, in range) "
+                "and _cleave for fully enzymatic digestion with optional N-terminal methionine clipping: "
+                "COMPLETENESS (every slice between sites i and i+d, d <= missed_cleavages+1, within the length "
+                "bounds is returned, and its clipped form when it starts with M at site 0 and stays >= min_length) "
+                "and SOUNDNESS (every returned peptide is one of those; ghost witness maps). The semi-enzymatic branch "
+                "is specified but its obligations are not discharged reliably, so the proof carries `not semi` as a "
+                "stated precondition; semi, the regex behaviour and monotonicity are decided by the bounded run "
+                "(digest exhaustively on all sequences of length <= 6 over 5 letters).",
+        "design_ref": "DESIGN.md 4.C17",
+        "note": "strings as abstract slices (two different slices may or may not be equal strings); re.finditer "
+                "assumed to yield non-decreasing match ends inside the sequence; min_length >= 1",
+        "technique": "sidecar contracts with three nested loop invariants, ghost witness maps and named candidate "
+                     "spec functions; z3/cvc5; exhaustive short-sequence digest as bounded stand-in",
     },
 }
